@@ -220,6 +220,63 @@ int main(int argc, char** argv) {
         return 0;
     }
 
+    if (!strcmp(kind, "placement")) {
+        /* buffer placement: the marshalling interface takes untyped byte buffers, which callers embed at arbitrary offsets (a frame with
+         * a 4-byte length prefix, a packed record): every valid object is marshalled to and unmarshalled from a buffer whose start
+         * address is base+off for EVERY off in 0..15 (the allocation is off+len bytes, so the buffer still ends at the red zone) */
+        unsigned long long nplace = 0;
+        for (size_t off = 0; off < 16; off++) {
+            size_t g1 = comp ? 48 : 96, g2 = comp ? 96 : 192;
+            for (int id = 0; id < 13; id++) {
+                size_t len = 0;
+                switch (id) {
+                    case 0: len = embedded_pairing_wkdibe_ciphertext_get_marshalled_length(comp); break;
+                    case 1: len = embedded_pairing_wkdibe_signature_get_marshalled_length(comp); break;
+                    case 2: len = embedded_pairing_wkdibe_masterkey_get_marshalled_length(comp); break;
+                    case 3: len = embedded_pairing_lqibe_params_get_marshalled_length(comp); break;
+                    case 4: len = embedded_pairing_lqibe_id_get_marshalled_length(comp); break;
+                    case 5: len = embedded_pairing_lqibe_masterkey_get_marshalled_length(comp); break;
+                    case 6: len = embedded_pairing_lqibe_secretkey_get_marshalled_length(comp); break;
+                    case 7: len = embedded_pairing_lqibe_ciphertext_get_marshalled_length(comp); break;
+                    case 8: len = g1; break;
+                    case 9: len = g2; break;
+                    case 10: len = 576; break;
+                    case 11: len = embedded_pairing_wkdibe_params_get_marshalled_length(&w.params, comp); break;
+                    case 12: len = embedded_pairing_wkdibe_secretkey_get_marshalled_length(&w.key, comp); break;
+                }
+                uint8_t* m = (uint8_t*) malloc(off + len);
+                uint8_t* buf = m + off;
+                snprintf(g_case, sizeof(g_case), "placement object=%d compressed=%d checked=%d offset=%zu idx=%zu", id, comp, checked, off, off * 13 + id);
+                embedded_pairing_bls12_381_g1affine_t a1; embedded_pairing_bls12_381_g2affine_t a2;
+                bool ok = true;
+                switch (id) {
+                    case 0: { embedded_pairing_wkdibe_ciphertext_marshal(buf, &w.ct, comp); embedded_pairing_wkdibe_ciphertext_t x; ok = embedded_pairing_wkdibe_ciphertext_unmarshal(&x, buf, comp, checked); break; }
+                    case 1: { embedded_pairing_wkdibe_signature_marshal(buf, &w.sig, comp); embedded_pairing_wkdibe_signature_t x; ok = embedded_pairing_wkdibe_signature_unmarshal(&x, buf, comp, checked); break; }
+                    case 2: { embedded_pairing_wkdibe_masterkey_marshal(buf, &w.msk, comp); embedded_pairing_wkdibe_masterkey_t x; ok = embedded_pairing_wkdibe_masterkey_unmarshal(&x, buf, comp, checked); break; }
+                    case 3: { embedded_pairing_lqibe_params_marshal(buf, &w.lqp, comp); embedded_pairing_lqibe_params_t x; ok = embedded_pairing_lqibe_params_unmarshal(&x, buf, comp, checked); break; }
+                    case 4: { embedded_pairing_lqibe_id_marshal(buf, &w.lqid, comp); embedded_pairing_lqibe_id_t x; ok = embedded_pairing_lqibe_id_unmarshal(&x, buf, comp, checked); break; }
+                    case 5: { embedded_pairing_lqibe_masterkey_marshal(buf, &w.lqm, comp); embedded_pairing_lqibe_masterkey_t x; ok = embedded_pairing_lqibe_masterkey_unmarshal(&x, buf, comp, checked); break; }
+                    case 6: { embedded_pairing_lqibe_secretkey_marshal(buf, &w.lqsk, comp); embedded_pairing_lqibe_secretkey_t x; ok = embedded_pairing_lqibe_secretkey_unmarshal(&x, buf, comp, checked); break; }
+                    case 7: { embedded_pairing_lqibe_ciphertext_marshal(buf, &w.lqct, comp); embedded_pairing_lqibe_ciphertext_t x; ok = embedded_pairing_lqibe_ciphertext_unmarshal(&x, buf, comp, checked); break; }
+                    case 8: { embedded_pairing_bls12_381_g1affine_from_projective(&a1, &w.params.g2); embedded_pairing_bls12_381_g1_marshal(buf, &a1, comp); embedded_pairing_bls12_381_g1affine_t x; ok = embedded_pairing_bls12_381_g1_unmarshal(&x, buf, comp, checked); break; }
+                    case 9: { embedded_pairing_bls12_381_g2affine_from_projective(&a2, &w.params.g); embedded_pairing_bls12_381_g2_marshal(buf, &a2, comp); embedded_pairing_bls12_381_g2affine_t x; ok = embedded_pairing_bls12_381_g2_unmarshal(&x, buf, comp, checked); break; }
+                    case 10: { embedded_pairing_bls12_381_gt_marshal(buf, &w.params.pairing); embedded_pairing_bls12_381_fq12_t x; embedded_pairing_bls12_381_gt_unmarshal(&x, buf); break; }
+                    case 11: { embedded_pairing_wkdibe_params_marshal(buf, &w.params, comp); parse_params(buf, len, comp, checked); break; }
+                    case 12: { embedded_pairing_wkdibe_secretkey_marshal(buf, &w.key, comp); parse_secretkey(buf, len, comp, checked); break; }
+                }
+                /* zp_from_hash / hash-to-curve read byte buffers too */
+                if (id == 8 && len >= 48) { embedded_pairing_core_bigint_256_t z; embedded_pairing_bls12_381_zp_from_hash(&z, buf); embedded_pairing_bls12_381_g1affine_from_hash(&a1, buf); }
+                if (id == 9 && len >= 96) { embedded_pairing_bls12_381_g2affine_from_hash(&a2, buf); }
+                if (ok) n_accepted++;
+                n_calls++; nplace++;
+                free(m);
+            }
+        }
+        printf("STAT {\"kind\":\"placement\",\"compressed\":%d,\"checked\":%d,\"fill\":\"alphabet\",\"calls\":%llu,\"lengths_accepted\":0,\"objects_accepted\":%llu,\"remarshalled\":%llu,\"last_len\":16}\n",
+               comp, checked, nplace, n_accepted, nplace);
+        return 0;
+    }
+
     /* fixed-size objects */
     struct Fixed { const char* name; size_t len; int id; };
     size_t g1 = comp ? 48 : 96, g2 = comp ? 96 : 192;
